@@ -28,10 +28,16 @@ func updateMapAppendFunc(t *tType) {
 		panic("[bug] type mismatch, got: " + ttype2str(t.T))
 	}
 
-	f, ok := mapAppendFuncs[struct{ k, v ttype }{k: t.K.T, v: t.V.T}]
-	if ok {
-		t.AppendFunc = f
-		return
+	// The fast paths range over the map through a cast Go map type, which is only
+	// sound if the cast type hashes and lays out entries like the real one:
+	// float64 keys are not hashed like uint64, and a binary value is a 24-byte
+	// []byte, not a 16-byte string.
+	if t.K.T != tDOUBLE && !t.V.isBinary() {
+		f, ok := mapAppendFuncs[struct{ k, v ttype }{k: t.K.T, v: t.V.T}]
+		if ok {
+			t.AppendFunc = f
+			return
+		}
 	}
 	t.AppendFunc = appendMapAnyAny
 }
